@@ -38,7 +38,7 @@ def run_one(sid: str, parent: str, all_props: bool = False, base: str = SEEDED) 
         _copy_pkg(root)
         # tests are not copied; drop hunks that touch them
         r = subprocess.run(
-            ["git", "apply", "--exclude=cubed/tests/*", "-p1", os.path.join(d, "patch.diff")],
+            ["git", "apply", "--exclude=cubed/tests/*", "--include=cubed/*", "-p1", os.path.join(d, "patch.diff")],
             cwd=root,
             capture_output=True,
             text=True,
